@@ -105,8 +105,10 @@ Definition holds_refresh (v : jv) : jv :=
   let o := jfield "obs" v in
   let r := check_readers c (map as_str (as_arr (jfield "readers" v))) (as_arr (jfield "readers" o)) in
   if negb (str_eqb r (pys "ok")) then JStr r
-  else if initial_ok c && str_eqb (as_str (jfield "writer" o)) (pys "done") then
-         if same_setb (bset_of_jv (jfield "allow" o)) (final_allow c) && same_setb (bset_of_jv (jfield "deny" o)) (final_deny c)
+  else if initial_ok c then
+         (* with decodable static keys the refresh must run to completion and establish the final sets *)
+         if negb (str_eqb (as_str (jfield "writer" o)) (pys "done")) then JStr (pys "refresh-did-not-complete")
+         else if same_setb (bset_of_jv (jfield "allow" o)) (final_allow c) && same_setb (bset_of_jv (jfield "deny" o)) (final_deny c)
          then JStr (pys "ok") else JStr (pys "lists-differ-from-query-results")
        else JStr (pys "ok").
 
